@@ -752,6 +752,14 @@ pub fn check_generation(
                     }
                     return Err(fail("image-not-openable", format!("{what}: {e}"), aux));
                 }
+                Opened::OpenFailed(e) if ctx.judge == Judge::History && marks.index_update_open[p] && e.contains("BPlusTree") => {
+                    // F44 again: the torn index is already noticed when the store is opened
+                    let mut f = fail("image-not-openable", format!("{what}: {e}"), aux);
+                    f.aux["f44_window"] = json!(true);
+                    ctx.stats.inc("crash_inside_index_update_left_an_unopenable_store");
+                    deferred_known.get_or_insert(f);
+                    continue;
+                }
                 Opened::OpenFailed(e) => {
                     // reported by C07's crash stream; here it only means that nothing can be judged on this image
                     ctx.stats.inc("images_not_openable");
@@ -842,11 +850,13 @@ pub fn check_generation(
                             }
                             if !ok {
                                 let (class, msg) = last_err.unwrap_or_default();
-                                let f = fail(&format!("after-recovery/{class}"), format!("{what}: latest values equal the state after {:?} commits, but the versions do not: {msg}", hs), aux);
-                                if cm != CrashModel::Process && marks.index_update_open[p] {
-                                    // known finding F44 (power loss while the B+tree index is being updated in place): counted,
-                                    // reported once at the end of the case, and the enumeration goes on with the next image
-                                    ctx.stats.inc("power_loss_inside_index_update_broke_the_index");
+                                let mut f = fail(&format!("after-recovery/{class}"), format!("{what}: latest values equal the state after {:?} commits, but the versions do not: {msg}", hs), aux);
+                                if marks.index_update_open[p] && class != "history-version-listed-twice" {
+                                    // known finding F44 (a crash - process or power - while the B+tree index is being updated in
+                                    // place, between the first page write of the update and its fsync): counted, reported once
+                                    // at the end of the case, and the enumeration goes on with the next image
+                                    f.aux["f44_window"] = json!(true);
+                                    ctx.stats.inc(if cm == CrashModel::Process { "process_crash_inside_index_update_broke_the_index" } else { "power_loss_inside_index_update_broke_the_index" });
                                     deferred_known.get_or_insert(f);
                                     continue;
                                 }
@@ -1037,6 +1047,9 @@ pub fn run_crash_case(case: &CrashCase, dir: &Path, judge: Judge) -> CaseResult 
         return fail(&format!("workload/{c}"), m.clone());
     }
     stats.add("n_trace_ops", run.trace.len() as u64);
+    if run.trace.iter().any(|t| t.op == OP_UNLINK && t.p1.ends_with(".vlog")) {
+        stats.inc("value_log_file_removed_in_the_run");
+    }
     let points = select_points(&run.trace, case.stride as usize, case.salt);
     stats.add("n_crash_points", points.len() as u64);
     let mut ctx = GenCtx { cfg: &cfg, judge, stats: &mut stats, rt: &rt, scratch: dir };
@@ -1155,19 +1168,46 @@ pub fn crash_strategy(stride: u16, arena_full: bool) -> BoxedStrategy<CrashCase>
 }
 
 /// Workloads of C10's crash stream: timestamped histories on a versioning-enabled store, no second generation.
-pub fn crash_strategy_c10(stride: u16, vindex: bool) -> BoxedStrategy<CrashCase> {
+pub fn crash_strategy_c10(stride: u16, vindex: bool, vlog_heavy: bool) -> BoxedStrategy<CrashCase> {
     let mut p = crate::props::c10_profile(Some(vindex), false);
-    p.cfg.vlog = None;
+    p.cfg.vlog = if vlog_heavy { Some(true) } else { None };
     p.steps = (10, 45);
     p.step.w = Weights { txn: 50, rotate: 4, flush_oldest: 7, flush_all: 8, compact: 8, reopen: 3, flush_wal: 3, ..Weights::default() };
+    if vlog_heavy {
+        // many small value-log files that become obsolete: every value separated, files of a few hundred bytes, barriers
+        // (replace / hard delete) that erase the versions below them, many compaction rounds over few levels
+        p.step.ops = OpWeights { set: 8, delete: 3, soft_delete: 1, replace: 6 };
+        p.step.w.compact = 16;
+        p.step.w.flush_all = 12;
+        p.pool = (2, 5);
+        p.steps = (20, 60);
+    }
     p.step.slots = 1;
     p.step.ro_frac = 0;
-    (case_strategy(&p), any::<u32>()).prop_map(move |(work, salt)| CrashCase { work, work2: vec![], salt, stride, arena_full: false }).boxed()
+    (case_strategy(&p), any::<u32>())
+        .prop_map(move |(mut work, salt)| {
+            if vlog_heavy {
+                work.cfg.vlog_threshold = if salt & 1 == 0 { 0 } else { 16 };
+                work.cfg.vlog_max_file = if salt & 2 == 0 { 256 } else { 700 };
+                work.cfg.level_count = 1 + (salt >> 2) as u8 % 2;
+            }
+            CrashCase { work, work2: vec![], salt, stride, arena_full: false }
+        })
+        .boxed()
 }
 
 pub fn crash_prop_c10(stride: u16, vindex: bool) -> PropDef<CrashCase> {
     let mut d = crash_prop("C10", Judge::History, stride, false);
-    d.strategy = Arc::new(move || crash_strategy_c10(stride, vindex));
+    d.strategy = Arc::new(move || crash_strategy_c10(stride, vindex, false));
+    d
+}
+
+/// C11's crash axis with the version index: value-log files become obsolete (barriers + compaction) and are cleaned up
+/// together with their index entries; every history / get_at on every crash image must still find its values.
+pub fn crash_prop_c11_index(stride: u16) -> PropDef<CrashCase> {
+    let mut d = crash_prop("C11", Judge::History, stride, false);
+    d.strategy = Arc::new(move || crash_strategy_c10(stride, true, true));
+    d.rule = format!("value-log clean-up with the version index on: every value separated (threshold 0 / 16), value-log files of 256 / 700 bytes, replace / hard delete barriers and many compaction rounds over 1-2 levels so that value-log files become obsolete and are removed together with their index entries; otherwise as the crash stream of C10: {}", d.rule);
     d
 }
 
